@@ -41,6 +41,9 @@ def gen_abstract(r):
     c["files"] = files
     # sections of other tools next to bumpver's (they must not change what the configuration means)
     c["noise"] = r.choice([None, None, "before", "after"])
+    c["omit_empty_table"] = r.random() < 0.7       # without files the file_patterns table may be left out altogether
+    # a leftover configuration of a similarly named tool (bump2version / bump-my-version) in ANOTHER file of the project
+    c["leftover"] = r.random() < 0.3
     return c
 
 
@@ -71,7 +74,8 @@ def render_ini(c, r, section="bumpver", quote="all"):
     for k in ("commit", "tag", "push"):
         if c[k] is not None:
             lines.append("%s = %s" % (k, r.choice(TRUE_SPELLINGS if c[k] else FALSE_SPELLINGS)))
-    lines += ["", "[%s:file_patterns]" % section]
+    if c["files"] or not c.get("omit_empty_table"):
+        lines += ["", "[%s:file_patterns]" % section]
     for path, pats in c["files"].items():
         if quote == "none" and pats:
             # first pattern on the same line as the file name (configparser joins continuation lines)
@@ -94,7 +98,8 @@ def render_toml(c, section="bumpver"):
     for k in ("commit", "tag", "push"):
         if c[k] is not None:
             lines.append("%s = %s" % (k, "true" if c[k] else "false"))
-    lines += ["", "[%s.file_patterns]" % section]
+    if c["files"] or not c.get("omit_empty_table"):
+        lines += ["", "[%s.file_patterns]" % section]
     for path, pats in c["files"].items():
         lines.append("%s = [" % project.toml_key(path))
         for p in pats:
@@ -157,6 +162,10 @@ def run(rep, tier, seed, model_ok=True, effort=1):
                 text = with_noise(render_ini(c, r, section, quote) if kind == "ini" else render_toml(c, section), kind, c.get("noise"))
                 open(os.path.join(d, fname), "w", encoding="utf-8").write(text)
                 open(os.path.join(d, "hook.sh"), "w").write("#!/bin/sh\n")
+                if c.get("leftover"):
+                    other = "pyproject.toml" if fname != "pyproject.toml" else "setup.cfg"
+                    open(os.path.join(d, other), "w").write('[tool.bumpversion]\ncurrent_version = "0.1.0"\n\n[bumpversion]\ncurrent_version = "0.1.0"\n' if other.endswith(".toml")
+                                                             else "[bumpversion]\ncurrent_version = 0.1.0\n\n[bumpversion:file:setup.py]\n")
                 renderer = project.TempProject(c["version_pattern"], c["current_version"])
                 for path, pats in c["files"].items():
                     os.makedirs(os.path.dirname(os.path.join(d, path)) or d, exist_ok=True)
